@@ -12,6 +12,7 @@ import (
 
 	_ "github.com/scigolib/hdf5/verifsim/e1"
 	"github.com/scigolib/hdf5/verifsim/e2"
+	_ "github.com/scigolib/hdf5/verifsim/e3"
 	"github.com/scigolib/hdf5/verifsim/harness"
 	"github.com/scigolib/hdf5/verifsim/trace"
 )
